@@ -130,3 +130,38 @@ Theorem C02_rejected_or_parsed : forall s,
   (exists p, parse s = Err p) \/ (exists b, parse s = Ok b).
 Proof. exact parse_total. Qed.
 Print Assumptions C02_rejected_or_parsed.
+
+(* Full-fidelity printing.  "... or parsed into a tree whose full-fidelity printing reproduces the
+   text byte for byte - no token of an accepted file is silently dropped and no internal Python
+   error ever escapes".  Syntax/Trivia.v models which node every whitespace / comment / eol token
+   is attached to (Parser.getsym's current_ws, create_node, CodeBlockNode.pre_whitespaces /
+   append_whitespaces, the 'not in' case, the leftovers at the end of a block) and
+   Syntax/RawPrint.v the order in which RawPrinter (a FullAstVisitor) emits symbols, children and
+   whitespaces.  For EVERY text that the parser accepts, the whitespace bookkeeping succeeds (the
+   only internal error it could raise, the AttributeError of the 'not in' case, is unreachable:
+   the lexer never puts an 'in' token directly after a 'not' token); and if no argument list of
+   the tree has a positional argument after a keyword argument, printing the trivia-annotated tree
+   gives back the text, byte for byte ... *)
+From MV Require Import Syntax.Trivia Syntax.RawPrint Syntax.RawPrintFacts.
+Theorem C02_trivia_total : forall s b,
+  parse s = Ok b ->
+  exists tb, parse_with_trivia s = TOk tb /\ (order_ok_block b = true -> raw_print tb = s).
+Proof. exact trivia_total. Qed.
+Print Assumptions C02_trivia_total.
+Theorem C02_print_parse_identity : forall s b tb,
+  parse s = Ok b -> order_ok_block b = true -> parse_with_trivia s = TOk tb -> raw_print tb = s.
+Proof. exact print_parse_identity. Qed.
+Print Assumptions C02_print_parse_identity.
+(* ... every text is rejected with the parser's position or has a trivia-annotated tree (the
+   model never answers with an internal error or out-of-fuel) ... *)
+Theorem C02_parse_with_trivia_outcomes : forall s,
+  (exists p, parse s = Err p /\ parse_with_trivia s = TErr p) \/
+  (exists b tb, parse s = Ok b /\ parse_with_trivia s = TOk tb).
+Proof. exact parse_with_trivia_outcomes. Qed.
+Print Assumptions C02_parse_with_trivia_outcomes.
+(* ... and the unguarded identity is false for the shipped code (known finding
+   C02:not-lossless:keyword-argument-before-positional: `f(a: 1, b)` is printed as `f(b, a: 1)`). *)
+Theorem C02_print_parse_identity_refuted :
+  exists s tb, parse_with_trivia s = TOk tb /\ raw_print tb <> s.
+Proof. exact print_parse_identity_refuted. Qed.
+Print Assumptions C02_print_parse_identity_refuted.
